@@ -1,7 +1,7 @@
 (** C11 — Rewrites leave no orphans and references follow.
     Model: Model/RepoV.v (lib/src/repo.rs rebase_descendants_with_options and helpers,
     lib/src/rewrite.rs, lib/src/refs.rs, lib/src/commit_builder.rs). *)
-From Verif Require Import Base.Prelude Base.DagV Model.Merge Model.RepoV Model.C11 Proofs.C10 Proofs.C11 Proofs.C11Loop.
+From Verif Require Import Base.Prelude Base.DagV Model.Merge Model.RepoV Model.C11 Proofs.C10 Proofs.C11 Proofs.C11Loop Proofs.C11View.
 
 (** rewritten_ids_with (new_parents is the instance that skips divergent records) never runs out
     of the stated fuel, whatever the mapping (cyclic or not): every key is expanded once. *)
@@ -89,6 +89,52 @@ Proof.
   exact (proj2 (loop_clean s0 o J0 Dom order s1 V Tall H)).
 Qed.
 
+(** HEADLINE. No orphans in the view written by rebase_descendants: for every state [s0]
+    satisfying the invariant [J] (well-formed graph and view), every set of rewrite / abandon /
+    divergent records whose replacement targets are in scope, every option set, immutable set and
+    tree oracle, and every ordering function [ord] whose result respects the dependency relation
+    the code computes and covers the commits to rebase: if rebase_descendants returns [s'], then no
+    commit visible in [s'] descends - through unshielded commits - from a commit with a
+    rewritten/abandoned record ([s1] = the state after the rebase loop, whose parent_mapping holds
+    the final records). Shielded = immutable, or an ancestor of a commit with a divergent record
+    (those are kept in place on purpose). *)
+Theorem C11_no_orphans : forall (s0 : state) (o : rebase_opts) ord (s' : state),
+  J s0 ->
+  (forall k r t, In (k, r) (s_pm s0) -> In t (new_parent_ids r) -> In t (scope s0 (o_imm o))) ->
+  (forall name t, In (name, t) (v_bms (s_v s0)) -> Nat.odd (length t) = true) ->
+  pm_get (s_pm s0) 0 = None ->
+  (forall order, ord (s_g s0) (s_pm s0) (find_descendants_for_rebase s0 (o_imm o)) = Ok order ->
+     valid_from s0 o [] order /\ forall x, In x (find_descendants_for_rebase s0 (o_imm o)) -> In x order) ->
+  rebase_descendants_with ord s0 o = Ok s' ->
+  exists s1, rebase_loop_with ord s0 o = Ok s1 /\
+    let sh := ancs (pg (s_g s')) (o_imm o ++ div_keys (s_pm s1)) in
+    forall x, covered (pg (s_g s')) (v_heads (s_v s')) x -> ~ In x sh ->
+      ~ Tainted (pg (s_g s')) (nd_keys (s_pm s1)) sh x.
+Proof. exact no_orphans_model. Qed.
+
+(** Instance for the implementation's ordering (the DFS of order_commits_for_rebase), with the
+    hypothesis on the order replaced by the boolean [order_valid] that is evaluated on every
+    correspondence case. *)
+Theorem C11_no_orphans_impl_order : forall (s0 : state) (o : rebase_opts) (s' : state),
+  J s0 ->
+  (forall k r t, In (k, r) (s_pm s0) -> In t (new_parent_ids r) -> In t (scope s0 (o_imm o))) ->
+  (forall name t, In (name, t) (v_bms (s_v s0)) -> Nat.odd (length t) = true) ->
+  pm_get (s_pm s0) 0 = None ->
+  order_valid s0 o = true ->
+  rebase_descendants s0 o = Ok s' ->
+  exists s1, rebase_loop s0 o = Ok s1 /\
+    let sh := ancs (pg (s_g s')) (o_imm o ++ div_keys (s_pm s1)) in
+    forall x, covered (pg (s_g s')) (v_heads (s_v s')) x -> ~ In x sh ->
+      ~ Tainted (pg (s_g s')) (nd_keys (s_pm s1)) sh x.
+Proof.
+  intros s0 o s' J0 Dom Odd Root OV H.
+  apply (no_orphans_model s0 o order_commits_for_rebase s' J0 Dom Odd Root); [|exact H].
+  intros order EO. unfold order_valid in OV. rewrite EO in OV.
+  apply andb_true_iff in OV. destruct OV as [V C]. split.
+  - now apply valid_fromb_spec.
+  - intros x Hx. rewrite forallb_forall in C. apply memn_In. now apply C.
+Qed.
+
 (** The order check run on every case means [valid_from]. *)
 Theorem C11_order_check_spec : forall s0 o order,
   valid_fromb (s_g s0) (s_pm s0) (find_descendants_for_rebase s0 (o_imm o)) [] order = true ->
@@ -131,5 +177,7 @@ Print Assumptions C11_new_parents_complete.
 Print Assumptions C11_no_orphans_checker_spec.
 Print Assumptions C11_no_orphans_old_refuted.
 Print Assumptions C11_order_check_spec.
+Print Assumptions C11_no_orphans.
+Print Assumptions C11_no_orphans_impl_order.
 Print Assumptions C11_wc_root_witness.
 Print Assumptions C11_no_orphans_loop.
